@@ -115,6 +115,7 @@ type Interp struct {
 	callStack  []*ssa.Function
 	nAsserts   int64
 	symFmtInts bool
+	errFmt     int
 	symParts   []Str
 	curInitPkg *ssa.Package
 }
